@@ -695,3 +695,41 @@ pub fn late4_row() -> Vec<Universe> {
 pub fn late3xun_oe() -> Vec<Universe> {
     late_gadget_full(3, true, false, None, true).into_iter().filter(|u| !u.label.split(':').nth(1).unwrap_or("").contains('A')).collect()
 }
+
+/// chains `c0 -> ... -> c(k-1) -> z:Output` (k = 2..=maxk, inner jobs Ephemeral or Output) in which any
+/// non-empty set of positions has its own Always input: several independent inputs finishing (or
+/// failing) in any order decide, one after the other, what the Ephemerals of the chain must do
+pub fn chains_multi(maxk: usize, max_inputs_long: u32) -> Vec<Universe> {
+    let mut out = Vec::new();
+    for k in 2..=maxk {
+        for kv in 0..(1usize << k) {
+            for inputs in 1..(1usize << (k + 1)) {
+                if (inputs as u32).count_ones() < 2 {
+                    continue; // a single input: family `chains`
+                }
+                if k > 2 && (inputs as u32).count_ones() > max_inputs_long {
+                    continue;
+                }
+                let mut jobs: Vec<JobDef> = (0..k).map(|i| JobDef::new(&format!("c{}", i), if kv & (1 << i) != 0 { Kind::O } else { Kind::E })).collect();
+                jobs.push(JobDef::new("z", Kind::O));
+                let mut edges: Vec<Edge> = (0..k).map(|i| Edge { up: i, down: i + 1, read: true, parts: vec![] }).collect();
+                for pos in 0..=k {
+                    if inputs & (1 << pos) != 0 {
+                        jobs.push(JobDef::new(&format!("x{}", pos), Kind::A));
+                        edges.push(Edge { up: jobs.len() - 1, down: pos, read: true, parts: vec![] });
+                    }
+                }
+                out.push(Universe {
+                    label: format!("chainm{}:{:0w$b}:{:b}", k, kv, inputs, w = k),
+                    graphs: vec![Graph { jobs, edges }],
+                });
+            }
+        }
+    }
+    out
+}
+
+/// the filtered 6-job late family (every slot below e0, x -> slot edges) with Output / Ephemeral slots only
+pub fn late3x_oe() -> Vec<Universe> {
+    late_gadget_full(3, true, true, None, false).into_iter().filter(|u| !u.label.split(':').nth(1).unwrap_or("").contains('A')).collect()
+}
